@@ -178,6 +178,11 @@ structure SState where
   depth : Int
   deriving DecidableEq, Repr, Inhabited
 
+/-- `return attrib(kind, data, pos, namespaces, variables) or None` (fixes ef611bc for
+    SimplePathStrategy, 996160a for SingleStepStrategy) -/
+def attrResult (a : NodeTest) (e : Event) (ns : NsMap) : Val :=
+  if (a.apply e ns).truthy then a.apply e ns else .none
+
 def sSteps (p : LocPath) : List Step :=
   match p with
   | s0 :: _ => if s0.axis == .attribute then dotSlash :: p else p
@@ -208,7 +213,7 @@ def sStep (steps : List Step) (ic : Bool) (ns : NsMap) (vs : Vars) (st : SState)
         let (ok, counters) := sPreds e ns vs s0.preds 0 st.counters
         let st := { st with counters := counters }
         if !ok then (st, .none)
-        else if sl.axis == .attribute then (st, sl.test.apply e ns)
+        else if sl.axis == .attribute then (st, attrResult sl.test e ns)
         else (st, .bool true)
     | _, _ => (st, .none)
 
@@ -318,10 +323,6 @@ def icLoop (frags : List Frag) (e : Event) (ns : NsMap) :
                           else icLoop frags e ns fuel (fid + 1) 0
             | none => (fid + 1, 0, fragLen, frag.attr)
         else (fid, p, fragLen, frag.attr)
-
-/-- `return attrib(kind, data, pos, namespaces, variables) or None` (fix ef611bc) -/
-def attrResult (a : NodeTest) (e : Event) (ns : NsMap) : Val :=
-  if (a.apply e ns).truthy then a.apply e ns else .none
 
 def pStep (frags? : Option (List Frag)) (ignoreContext : Bool) (ns : NsMap) (st : PState) (e : Event) :
     PState × Val :=
